@@ -34,7 +34,7 @@ TEXT = {
          "Lean kernel; model validated by the correspondence run."),
  "C12": ("Theorems: GetLineAndCol equals the split-at-newline specification for every offset; provenance: every position any run can report — syntax, lexical, runtime, program or -r selector — is the offset of a token of the text it is reported with (or of the offending byte of a lexical error), by inductions over the 14 parser and 15 evaluator functions (`reported_position_in_text`, `runtime_error_pos_is_token`); illegal characters exactly on the byte. Correspondence: every byte offset of multi-line texts with hostile prefixes (multi-line literals, CRLF, multi-byte), error positions of every fault kind incl. the depth limit through every frame parity, selector faults, and the binary's three diagnostic lines parsed back (several files, -f, leading blank lines).",
          "Lean kernel; the theorems say the reported offset is the offset of SOME token of the text; WHICH token a given fault blames (the column falls inside the offending construct) is validated by correspondence (line/col/src computed from the generated text), not proved."),
- "C13": ("Theorems: blanks and comments are invisible to the lexer; number / keyword / string token shapes; escapes; the parser is parametric in token positions (up to out-of-fuel); `newline_insertion_bytes`: in ANY program text a newline (or blanks/comment + newline) may be inserted at any token boundary as the parser lexed it, except after print/return, after a print-level comma and before `;`, without changing the AST (each exclusion shown necessary); `semicolon_for_newline_bytes`. Correspondence: 8+ layouts of each token sequence incl. CR/LF/tabs/comments, forbidden gaps, all 256 bytes in 19 lexer contexts, words/numbers adjacency, string literals.",
+ "C13": ("Theorems: blanks and comments are invisible to the lexer; number / keyword / string token shapes; escapes; the parser is parametric in token positions; `parse_never_oof`: the parser's fuel always suffices (every text parses or is a syntax error), so token-equivalent texts parse alike (`layout_invariant_parses`); `newline_insertion_bytes`: in ANY program text a newline (or blanks/comment + newline) may be inserted at any token boundary as the parser lexed it, except after print/return, after a print-level comma and before `;`, without changing the AST (each exclusion shown necessary); `semicolon_for_newline_bytes`. Correspondence: 8+ layouts of each token sequence incl. CR/LF/tabs/comments, forbidden gaps, all 256 bytes in 19 lexer contexts, words/numbers adjacency, string literals.",
          "Lean kernel; the byte-level theorems hold for rule tables satisfying a decidable condition that the real table meets (checked by decide)."),
  "C14": ("Theorems about a model of the command line (exit status, -o FILE = -o -, -f = inline, stdin = file, missing file, order of files and selectors) and `r_behaves_as_beginfile_rule(_builtins)(_cli)`: for selectors built from $, literals, member/index chains, array/object literals, every method call, operators and match expressions (and the builtins when the program never rebinds them), and programs whose ENDFILE rules do not read $, the whole run with -r E and the run with the extra rule BEGINFILE { $ = E } have the same outcome, output, JSON and exit status — a relational induction over the evaluator up to renaming of cell ids. Correspondence: the real binary against library and model (hostile arguments, existing -o targets, stdin as pipe/file/socket/closed, FIFOs).",
          "Lean kernel for the wrapper model; flag parsing by package flag and the OS are trusted; several -r flags are covered by correspondence (their order is a C02 theorem)."),
